@@ -362,6 +362,38 @@ static rnode* family_dict(uint64_t i) {
   if (z.code != RC_ACCEPT || z.read != n || !z.tree) { if (z.tree) rn_free(z.tree); vh_die("dictionary entry %s is not one well-formed item within the profile", h); }
   return ctx ? wrap_ctx(3, z.tree) : z.tree;
 }
+
+/* sixth family, kept out of the systematic index space because of its cost: single big leaves — strings of 128 KiB..16 MiB
+ * and containers of 10 000..400 000 members — bare and inside an array. Used by the "bigleaf" stages. */
+static const size_t bigleaf_lens[] = {131072, 262145, 524288, 1048575, 1048576, 1048577, 2097152, 16777216};
+static const size_t bigleaf_counts[] = {10000, 65535, 65536, 100000, 400000};
+uint64_t gen_bigleaf_count(void) { return (sizeof bigleaf_lens / sizeof bigleaf_lens[0]) * 2 * 2 + (sizeof bigleaf_counts / sizeof bigleaf_counts[0]) * 6 * 2; }
+rnode* gen_bigleaf(uint64_t i) {
+  int ctx = (int)(i & 1);
+  i >>= 1;
+  rnode* n;
+  size_t nl = sizeof bigleaf_lens / sizeof bigleaf_lens[0];
+  if (i < nl * 2) {
+    size_t len = bigleaf_lens[i / 2];
+    n = mk_str((i & 1) ? R_TEXT : R_BYTES, len, 255, 0);
+    if ((i & 1) && (i & 2)) for (size_t k = 0; k + 1 < len; k += 2) { n->bytes[k] = 0xc3; n->bytes[k + 1] = 0xa9; } /* two-byte scalars */
+  } else {
+    i -= nl * 2;
+    size_t c = bigleaf_counts[(i / 6) % (sizeof bigleaf_counts / sizeof bigleaf_counts[0])];
+    int kind = (int)(i % 6);
+    if (kind >= 4) {
+      n = rn_new(kind == 4 ? R_BYTES : R_TEXT);
+      n->indef = 1;
+      for (size_t k = 0; k < c; k++) rn_add(n, mk_str(kind == 4 ? R_BYTES : R_TEXT, k % 5 == 3 ? 0 : 1, 255, 0));
+    } else {
+      n = rn_new(kind < 2 ? R_ARRAY : R_MAP);
+      n->indef = (uint8_t)(kind & 1);
+      for (size_t k = 0; k < c * (kind < 2 ? 1 : 2); k++) rn_add(n, mk_int(R_UINT, 0, k % 24, 0));
+    }
+  }
+  return ctx ? wrap_ctx(1, n) : n;
+}
+
 uint64_t gen_dict_count(void) { return NDICT * 2; } /* the dictionary occupies the last indices of the systematic family */
 uint64_t gen_systematic_count(void) {
   leaves_init();
